@@ -36,9 +36,10 @@ def fixed_query(prop, n, avail_out, valid_only, core=False, witness=False, timeo
     cp = max(8, avail_out) + 1
     p = dict(harness="harness/C02/h_fixed.c", units=["igzip/hufftables_c.c"], defines=FAST, hdefines=hdef,
              unwind=max(9, n + 3),
-             unwindset=["decode_huffman_code_block_stateless_base.0:%d" % syms,
-                        "decode_huffman_code_block_stateless_base.1:3", "byte_copy.0:%d" % (avail_out + 2),
-                        "rfc_codes.0:%d" % syms2, "rfc_codes.1:%d" % (avail_out + 3), "rfc_bits.0:17",
+             # CBMC numbers the inner loop first: .0 = per-symbol-pack loop / reference copy loop, .1 = outer symbol loop
+             unwindset=["decode_huffman_code_block_stateless_base.1:%d" % syms,
+                        "decode_huffman_code_block_stateless_base.0:3", "byte_copy.0:%d" % (avail_out + 2),
+                        "rfc_codes.1:%d" % syms2, "rfc_codes.0:%d" % (avail_out + 3), "rfc_bits.0:17",
                         "rfc_code_bits.0:9", "inflate_in_load.0:9", "memcpy.0:%d" % cp,
                         ] + ["harness.%d:%d" % (k, max(9, avail_out + 2, n + 1)) for k in range(6)],
              flags=["--slice-formula"], witness=witness)
